@@ -169,10 +169,26 @@ def row_ok(row):
 
 # ---------------------------------------------------------------------------------------------
 
+def _nonfinite_keys(r, keys):
+    """keys of the record whose (nested) numeric content holds a non-finite value (the impl driver writes those as strings or as
+    float nan / inf): such an output violates every clause that bounds it, and must not crash the predicates"""
+    def bad(v):
+        if isinstance(v, str):
+            return True
+        if isinstance(v, float):
+            return v != v or v in (float('inf'), float('-inf'))
+        if isinstance(v, (list, tuple)):
+            return any(bad(x) for x in v)
+        return False
+    return [k for k in keys if k in r and bad(r[k])]
+
 def helper_bad(c, r):
     """the helper clauses of the property on one record of outputs; list of complaints"""
     nseq, nsub, F = c['nseq'], c['nsub'], c['F']
     bad = []
+    nf = _nonfinite_keys(r, ('probs', 'cem', 'nocall', 'enough', 'proj'))
+    if nf:
+        return ['non-finite values in %s (probabilities / matrix entries must be finite numbers in [0,1])' % ', '.join(nf)]
     for af, (ps, pr) in enumerate(zip(r['parts'], r['probs'])):
         if sorted(ps) != all_configs(nseq // 2, af) or len(ps) != len(set(map(tuple, ps))):
             bad.append('partitions of allele count %d of %d are not all and only the genotype configurations: %r' % (af, nseq, ps))
@@ -222,6 +238,9 @@ def maxdiff(a, b):
 def lowpass_bad(ctx, c, r):
     """the corrected-model clauses of the property on one record of outputs; list of complaints"""
     bad = []
+    nf = _nonfinite_keys(r, ('model_total', 'out_total', 'out', 'sims'))
+    if nf:
+        return ['the corrected model is not finite (non-finite values in %s): it cannot be bounded by the uncorrected model' % ', '.join(nf)]
     scale = max([abs(x) for x in c['model']] + [1.0])
     tot_m, tot_o = r['model_total'], r['out_total']
     if tot_o > tot_m + 1e-11 * max(tot_m, 1.0):
